@@ -60,21 +60,35 @@ def exact(rep):
     ac = rep.f(AM, "Automorphism._analyze_component")
     gp = ac.params[1]
     adefs = local_defs(ac.node)
-    loops = [l for l in walk_local(ac.node) if isinstance(l, ast.For) and isinstance(l.iter, ast.Call) and call_name(l.iter) in (M.ISO_METHODS | M.SUB_METHODS)]
+    def _enum(l):
+        """(enumeration call, counter bound by enumerate(.., 1) or None, loop variable holding the mapping)"""
+        it = l.iter
+        if isinstance(it, ast.Call) and call_name(it) in (M.ISO_METHODS | M.SUB_METHODS):
+            return it, None, norm(l.target)
+        em = isinstance(it, ast.Call) and call_name(it) == "enumerate" and it.args and isinstance(it.args[0], ast.Call) and call_name(it.args[0]) in (M.ISO_METHODS | M.SUB_METHODS)
+        if em and isinstance(l.target, ast.Tuple) and len(l.target.elts) == 2:
+            start = it.args[1] if len(it.args) > 1 else kwarg(it, "start")
+            if start is not None and is_const(start, 1):
+                return it.args[0], norm(l.target.elts[0]), norm(l.target.elts[1])
+        return None
+    loops = [l for l in walk_local(ac.node) if isinstance(l, ast.For) and _enum(l) is not None]
     rep.need("R2", len(loops), 1, "enumeration loop in _analyze_component")
     lp = loops[0]
-    rep.ob("O11.1", "R2", ac, call_name(lp.iter) == "isomorphisms_iter", lp.iter, "all isomorphisms of the graph onto itself are enumerated", node=lp)
-    gm = origin(adefs, lp.iter.func.value)
+    ecall, ecount, evar = _enum(lp)
+    rep.ob("O11.1", "R2", ac, call_name(ecall) == "isomorphisms_iter", ecall, "all isomorphisms of the graph onto itself are enumerated", node=lp)
+    gm = origin(adefs, ecall.func.value)
     rep.ob("O11.1", "R2", ac, norm(gm) == f"self._make_matcher({gp})", gm, "the matcher is the self-matcher of this component")
     inc = [(n, pmatch("$c += 1", n)) for n in lp.body if pmatch("$c += 1", n) is not None]
-    rep.ob("O11.1", "SHAPE", ac, len(inc) == 1, inc[0][0] if inc else "n_aut += 1", "every automorphism is counted (unconditionally)", node=lp)
-    counter = inc[0][1]["c"] if inc else None
+    # counted either by `c += 1` in the body or by enumerate(..., 1) (then c starts at 0 before the loop)
+    by_enum = ecount is not None and not inc and any(d_.kind == "assign" and is_const(d_.value, 0) for d_ in adefs.get(ecount, []))
+    rep.ob("O11.1", "SHAPE", ac, len(inc) == 1 or by_enum, inc[0][0] if inc else "enumerate(<isomorphisms>, 1)", "every automorphism is counted (unconditionally)", node=lp)
+    counter = inc[0][1]["c"] if inc else (ecount if by_enum else None)
     exits = [n for n in walk_local(lp) if isinstance(n, (ast.Break, ast.Continue, ast.Return))]
     rep.ob("O11.1", "SHAPE", ac, not exits, [type(e).__name__ for e in exits], "the enumeration is never cut short")
     inner = [l for l in walk_local(lp) if isinstance(l, ast.For) and l is not lp]
     ok = False
     store = None
-    if inner and pmatch(f"{norm(lp.target)}.items()", inner[0].iter) is not None and isinstance(inner[0].target, ast.Tuple) and len(inner[0].target.elts) == 2:
+    if inner and pmatch(f"{evar}.items()", inner[0].iter) is not None and isinstance(inner[0].target, ast.Tuple) and len(inner[0].target.elts) == 2:
         u, v = [norm(e) for e in inner[0].target.elts]
         b = pall(["$o[$u].add($v)", "$o[$v].add($u)"], inner[0], {"u": u, "v": v})
         nadd = [c for c in walk_local(inner[0]) if isinstance(c, ast.Call) and call_name(c) == "add"]
@@ -86,7 +100,8 @@ def exact(rep):
     ok = False
     uo = None
     if isinstance(last, ast.Tuple) and len(last.elts) == 2 and counter and store:
-        cnt_ok = norm(last.elts[1]) == counter or pmatch(f"{counter} if {counter} > 0 else 1", last.elts[1]) is not None
+        cnt_ok = norm(last.elts[1]) == counter or pmatch(f"{counter} if {counter} > 0 else 1", last.elts[1]) is not None \
+            or pmatch(f"max({counter}, 1)", last.elts[1]) is not None or pmatch(f"max(1, {counter})", last.elts[1]) is not None
         e0 = last.elts[0]
         inner0 = e0.args[0] if isinstance(e0, ast.Call) and call_name(e0) in ("list", "sorted") and e0.args else e0
         uo = origin(adefs, inner0)
@@ -101,6 +116,31 @@ def exact(rep):
     rep.need("SHAPE", len(comps), 1, "comps = self.components in _analyze")
     cv = comps[0]
     lp = [l for l in walk_local(an.node) if isinstance(l, ast.For) and norm(l.iter) == cv]
+    if not lp:
+        # comprehension form: per = [self._analyze_component(self._graph.subgraph(c).copy()) for c in comps]; orbits chained, counts multiplied
+        okc = False
+        per = [nm for nm, ds in ndefs.items() for d_ in ds if d_.kind == "assign" and d_.value is not None
+               and pmatch(f"[self._analyze_component(self._graph.subgraph($c).copy()) for $c in {cv}]", d_.value) is not None]
+        if len(per) == 1:
+            PCn = per[0]
+            orb = [nm for nm, ds in ndefs.items() for d_ in ds if d_.value is not None and (
+                pmatch(f"chain.from_iterable(($o for $o, $u in {PCn}))", d_.value) is not None or pmatch(f"[$x for $o, $u in {PCn} for $x in $o]", d_.value) is not None)]
+            tot = [nm for nm, ds in ndefs.items() for d_ in ds if d_.value is not None and (
+                pmatch(f"prod((int($n) for $u, $n in {PCn}))", d_.value) is not None or pmatch(f"math.prod((int($n) for $u, $n in {PCn}))", d_.value) is not None
+                or pmatch(f"prod(($n for $u, $n in {PCn}))", d_.value) is not None or pmatch(f"math.prod(($n for $u, $n in {PCn}))", d_.value) is not None)]
+            if orb and tot:
+                st_n = [n for n in walk_local(an.node) if isinstance(n, ast.Assign) and norm(n.targets[0]) == "self._n_automorphisms" and tot[0] in {x.id for x in ast.walk(n.value) if isinstance(x, ast.Name)}]
+                st_o = [n for n in walk_local(an.node) if isinstance(n, ast.Assign) and norm(n.targets[0]) == "self._orbits" and orb[0] in {x.id for x in ast.walk(n.value) if isinstance(x, ast.Name)}]
+                okc = bool(st_n) and bool(st_o)
+        rep.ob("O11.1", "SHAPE", an, okc if per else None, "per-component analysis (comprehension form)",
+               "disconnected graphs: orbits are collected and automorphism counts multiplied per component (component swaps excluded)")
+        single = [c for c in walk_local(an.node) if isinstance(c, ast.Call) and call_name(c) == "_analyze_component" and norm(c.args[0]) == "self._graph"]
+        gs = [t for c in single for t, s_ in guards_of(pm, c, an.node) if s_]
+        rep.ob("O11.1", "SHAPE", an, bool(single) and any(pmatch(f"len({cv}) <= 1", t) is not None for t in gs), single[0] if single else "_analyze_component(self._graph)", "connected graphs are analysed as a whole")
+        lp = None
+    if lp is None:
+        _components_check(rep)
+        return
     rep.need("SHAPE", len(lp), 1, "component loop in _analyze")
     b = pall(["$sub = self._graph.subgraph($c).copy()", "$orb, $n = self._analyze_component($sub)", "$all.extend($orb)", "$tot *= int($n)"], lp[0], {"c": norm(lp[0].target)}) \
         or pall(["$sub = self._graph.subgraph($c).copy()", "$orb, $n = self._analyze_component($sub)", "$all.extend($orb)", "$tot *= $n"], lp[0], {"c": norm(lp[0].target)})
@@ -116,6 +156,10 @@ def exact(rep):
     single = [c for c in walk_local(an.node) if isinstance(c, ast.Call) and call_name(c) == "_analyze_component" and norm(c.args[0]) == "self._graph"]
     gs = [t for c in single for t, s_ in guards_of(pm, c, an.node) if s_]
     rep.ob("O11.1", "SHAPE", an, bool(single) and any(pmatch(f"len({cv}) <= 1", t) is not None for t in gs), single[0] if single else "_analyze_component(self._graph)", "connected graphs are analysed as a whole")
+    _components_check(rep)
+
+
+def _components_check(rep):
     cc = rep.f(AM, "Automorphism._compute_components")
     rets = returns_of(cc.node)
     ok = False
@@ -144,13 +188,18 @@ def estimate(rep):
     ok_sorted = ok_shape = False
     construct = rets[-1] if rets else "return"
     if rets:
-        m = pmatch("($base, tuple($sigs))", rets[-1].value) or pmatch("($base, tuple(sorted($sigs)))", rets[-1].value)
+        m = pmatch("($$base, tuple($sigs))", rets[-1].value) or pmatch("($$base, tuple(sorted($sigs)))", rets[-1].value)
         if m:
+            base_node = rets[-1].value.elts[0]
             sg = m["sigs"]
             in_place = pfind(f"{sg}.sort()", rl.node)
-            ok_sorted = bool(in_place) or pmatch("($base, tuple(sorted($sigs)))", rets[-1].value) is not None
+            sg_src = origin(rdefs, ast.Name(id=sg, ctx=ast.Load()))
+            gen = f"(self._neighbor_signature({node_p}, $n) for $n in self._graph.neighbors({node_p}))"
+            built_sorted = pmatch(f"sorted({gen})", sg_src) is not None or pmatch(f"sorted([self._neighbor_signature({node_p}, $n) for $n in self._graph.neighbors({node_p})])", sg_src) is not None
+            ok_sorted = bool(in_place) or built_sorted or pmatch("($$base, tuple(sorted($sigs)))", rets[-1].value) is not None
             fill = pall([f"for $n in self._graph.neighbors({node_p}):\n    {sg}.append(self._neighbor_signature({node_p}, $n))"], rl.node)
-            ok_shape = norm(origin(rdefs, ast.Name(id=m["base"], ctx=ast.Load()))) == f"self._colors[{node_p}]" and fill is not None
+            comp_fill = built_sorted or pmatch(f"[self._neighbor_signature({node_p}, $n) for $n in self._graph.neighbors({node_p})]", sg_src) is not None
+            ok_shape = norm(origin(rdefs, base_node)) == f"self._colors[{node_p}]" and (fill is not None or comp_fill)
     rep.ob("O11.2", "R12", rl, ok_sorted, "sigs.sort()" if ok_sorted else construct, "neighbour signatures form a multiset (sorted before use)")
     rep.ob("O11.2", "R12", rl, ok_shape, construct, "a refined label is (own colour, multiset of neighbour signatures)")
     ns = rep.f(AE, "AutoEst._neighbor_signature")
@@ -169,9 +218,12 @@ def estimate(rep):
     if len(lp) == 1 and norm(lp[0].iter) in ("self._graph.nodes()", "self._graph.nodes", "self._graph"):
         nd = norm(lp[0].target)
         b = pall([f"$label = self._refined_label({nd})", "if $label not in $pal:\n    $pal[$label] = $next\n    $next += 1", f"$c = $pal[$label]", f"$new[{nd}] = $c"], lp[0]) \
-            or pall([f"$label = self._refined_label({nd})", "if $label not in $pal:\n    $pal[$label] = $next\n    $next += 1", f"$new[{nd}] = $pal[$label]"], lp[0])
+            or pall([f"$label = self._refined_label({nd})", "if $label not in $pal:\n    $pal[$label] = $next\n    $next += 1", f"$new[{nd}] = $pal[$label]"], lp[0]) \
+            or pall([f"$new[{nd}] = $pal.setdefault(self._refined_label({nd}), len($pal))"], lp[0]) \
+            or pall([f"$label = self._refined_label({nd})", f"$new[{nd}] = $pal.setdefault($label, len($pal))"], lp[0])
         rr = returns_of(ro.node)
-        ok = b is not None and bool(rr) and isinstance(rr[-1].value, ast.Tuple) and norm(rr[-1].value.elts[0]) == b["new"]
+        ok = b is not None and bool(rr) and isinstance(rr[-1].value, ast.Tuple) and (b["new"] == norm(rr[-1].value.elts[0]) or any(d_.kind == "assign" and d_.value is not None and norm(d_.value) == b["new"]
+                                                                          for d_ in local_defs(ro.node).get(norm(rr[-1].value.elts[0]), [])))
     rep.ob("O11.2", "R12", ro, ok, lp[0].iter if lp else "for", "colours are assigned per distinct label: equal labels get equal colours in one sweep")
     bo = rep.f(AE, "AutoEst._build_orbits")
     b = pall(["for $n, $c in self._colors.items():\n    $m.setdefault($c, []).append($n)", "$orbs = [frozenset($v) for $v in $m.values()]"], bo.node)
@@ -253,7 +305,7 @@ def consistency(rep):
     uses = sorted(c.lineno for c in walk_local(fi.node) if isinstance(c, ast.Call) and call_name(c) in ("find_subgraph_mappings", "PartialMatcher", "Automorphism", "AutoEst"))
     rep.ob("O11.4", "SRC", fi, bool(uses) and all(a < uses[0] for a in assigns), f"assignments at {assigns}, uses at {uses}", "the pattern graph is not re-bound between matching and pruning")
     dd = [c for c in walk_local(fi.node) if isinstance(c, ast.Call) and call_name(c) == "deduplicate_matches_with_anchor"]
-    rep.need("SRC", len(dd), 2, "deduplicate calls in mappings")
+    rep.need("SRC", len(dd), 1, "deduplicate calls in mappings")
     fdefs = local_defs(fi.node)
     for c in dd:
         ok = False
@@ -262,9 +314,17 @@ def consistency(rep):
         mo, ma = pmatch("$a.orbits", po), pmatch("$a.anchor_component", pa)
         if isinstance(a0, ast.Name) and mo and ma and mo["a"] == ma["a"]:
             raw_src = [call_name(d_.value) for d_ in fdefs.get(a0.id, []) if d_.kind == "assign" and isinstance(d_.value, ast.Call)]
-            an_src = [call_name(d_.value) for d_ in fdefs.get(mo["a"], []) if d_.kind == "assign" and isinstance(d_.value, ast.Call)]
+            def _ctor(e):
+                # Automorphism(g) / AutoEst(g, ...) / AutoEst(g, ...).fit(), possibly as alternatives of a conditional expression
+                out_ = []
+                for leaf in if_leaves(e):
+                    if isinstance(leaf, ast.Call) and call_name(leaf) == "fit" and isinstance(leaf.func, ast.Attribute) and isinstance(leaf.func.value, ast.Call):
+                        leaf = leaf.func.value
+                    out_.append(call_name(leaf) if isinstance(leaf, ast.Call) else "?")
+                return out_
+            an_src = [n_ for d_ in fdefs.get(mo["a"], []) if d_.kind == "assign" and d_.value is not None for n_ in _ctor(d_.value)]
             ok = bool(raw_src) and set(raw_src) <= {"get_mappings", "find_subgraph_mappings"} and len(raw_src) == len(fdefs.get(a0.id, [])) \
-                and bool(an_src) and set(an_src) <= {"Automorphism", "AutoEst"} and len(an_src) == len(fdefs.get(mo["a"], []))
+                and bool(an_src) and set(an_src) <= {"Automorphism", "AutoEst"}
         rep.ob("O11.4", "SRC", fi, ok, c, "pruning receives the raw matches with the orbits and anchor of the same analysis object", node=c)
     srt = [c for c in walk_local(fi.node) if isinstance(c, ast.Call) and ((isinstance(c.func, ast.Name) and c.func.id == "sorted") or call_name(c) == "sort")]
     rep.ob("O11.4", "SRC", fi, not srt, srt[0] if srt else "no sort", "the list of matches is not re-sorted")
@@ -306,7 +366,7 @@ def anchor_selection(rep, oid):
             what = {"id": "among equally large candidates the choice falls to the smallest node id: results depend on the numbering of the template",
                     "iteration-order": "ties fall to container iteration order (node insertion order): results depend on how the template is written",
                     "total": "the selection is decided by a numbering-independent key"}[tie]
-            rep.ob(oid, "R11", fi, ok, f"{kind}: {txt[:110]}", what, {"tie_break": tie}, node=node)
+            rep.ob(oid, "R11", fi, ok, txt[:140], what, {"tie_break": tie}, node=node)
     rep.need("R11", n, 2, "selections on the pruning path")
 
 
@@ -379,21 +439,39 @@ def dedup_key(rep):
     e_ident, e_image = n0.args[0].elts
     ldefs = local_defs(lp)
     isrc = origin(ldefs, e_ident)
-    present = None
-    m = pmatch("tuple(sorted($p))", isrc) or pmatch("tuple($p)", isrc) or pmatch("frozenset($p)", isrc)
-    if m:
-        psrc = origin(ldefs, ast.Name(id=m["p"], ctx=ast.Load()))
-        if pmatch(f"[$x for $x in {orb} if $x in $keys]", psrc) is not None or m["p"] == orb:
-            present = m["p"]
-    rep.ob("O11.3", "R7", fs, present is not None, alpha(isrc, fs.node),
+    fsd = local_defs(fs.node)
+
+    def _keys_of_match(k):
+        """is k the match itself or its key set?"""
+        t = norm(origin(fsd, k))
+        return t in (M_, f"set({M_}.keys())", f"set({M_})", f"{M_}.keys()", f"frozenset({M_})", f"frozenset({M_}.keys())")
+
+    def _present(e, depth=0):
+        """is e the collection of this orbit's nodes that occur in the match (possibly sorted / turned into a tuple)?"""
+        if depth > 6:
+            return False
+        if isinstance(e, ast.Name):
+            if e.id == orb:
+                return True
+            return any(d_.kind == "assign" and d_.value is not None and _present(d_.value, depth + 1) for d_ in ldefs.get(e.id, []))
+        if isinstance(e, ast.Call) and isinstance(e.func, ast.Name) and e.func.id in ("tuple", "sorted", "list", "frozenset") and len(e.args) == 1:
+            return _present(e.args[0], depth + 1)
+        if isinstance(e, (ast.ListComp, ast.GeneratorExp, ast.SetComp)) and len(e.generators) == 1:
+            g = e.generators[0]
+            return norm(e.elt) == norm(g.target) and norm(g.iter) == orb and len(g.ifs) == 1 and isinstance(g.ifs[0], ast.Compare) \
+                and isinstance(g.ifs[0].ops[0], ast.In) and norm(g.ifs[0].left) == norm(g.target) and _keys_of_match(g.ifs[0].comparators[0])
+        return False
+    rep.ob("O11.3", "R7", fs, _present(e_ident), alpha(isrc, fs.node),
            "each part of the key names the orbit's own pattern nodes (not just how many there are): equally large orbits must not become interchangeable")
     imsrc = origin(ldefs, e_image)
-    im = pmatch(f"tuple(sorted(({HR}({M_}[$p]) for $p in $src)))", imsrc)
-    okim = im is not None and (present is None or norm(origin(ldefs, ast.Name(id=im["src"], ctx=ast.Load()))) in (norm(isrc), norm(origin(ldefs, ast.Name(id=present, ctx=ast.Load()))))
-                               or im["src"] in (present, b0["ident"]))
+    im = pmatch(f"tuple(sorted(({HR}({M_}[$p]) for $p in $$src)))", imsrc)
+    okim = False
+    if im is not None:
+        src_node = imsrc.args[0].args[0].generators[0].iter
+        okim = _present(src_node)
     rep.ob("O11.3", "R7", fs, okim, alpha(imsrc, fs.node), "and the images of exactly those nodes, as a multiset (permutations inside the orbit are the only thing forgotten)")
     skips = [x for x in walk_local(lp) if isinstance(x, (ast.Continue, ast.Break))]
-    oks = all(isinstance(x, ast.Continue) and [(norm(t), s_) for t, s_ in guards_of(pm, x, lp)] == [(present or "?", False)] for x in skips)
+    oks = all(isinstance(x, ast.Continue) and len(guards_of(pm, x, lp)) == 1 and not guards_of(pm, x, lp)[0][1] and _present(guards_of(pm, x, lp)[0][0]) for x in skips)
     rep.ob("O11.3", "R7", fs, oks, [type(x).__name__ for x in skips], "an orbit is skipped only when none of its nodes occurs in the (partial) match")
     rets = [r for r in returns_of(fs.node) if not (isinstance(r.value, ast.Tuple) and not r.value.elts)]
     okr = len(rets) == 1 and (pmatch(f"tuple({b0['parts']})", rets[0].value) is not None or pmatch(f"tuple(sorted({b0['parts']}))", rets[0].value) is not None)
@@ -413,17 +491,26 @@ def dedup_key(rep):
     loops = [l for l in walk_local(fi.node) if isinstance(l, ast.For) and norm(l.iter) == fi.params[0]]
     if loops:
         mv = norm(loops[0].target)
-        b = pall([f"$anc = _anchor_sig({mv}, $an)", "$sig = ($free, $anc)", "$seen.add($sig)"], loops[0])
+        b = pall(["$sig = ($$free, $$anc)", "$seen.add($sig)"], loops[0])
         okk = False
         if b is not None:
+            ld_ = local_defs(loops[0])
+            sig_stmt = [n for n, _b in pfind("$sig = ($$free, $$anc)", loops[0], {"sig": b["sig"]})][0]
+            e_free, e_anc = sig_stmt.value.elts
+            am = pmatch(f"_anchor_sig({mv}, $an)", origin(ld_, e_anc))
             # the free part: _free_sig_from_pattern_orbits(m, free orbits, host repr), possibly as one alternative of a conditional (host-only fallback)
-            for d_ in local_defs(loops[0]).get(b["free"], []):
-                if d_.value is None:
-                    continue
-                for leaf in if_leaves(d_.value):
+            fsrcs = [e_free] if not isinstance(e_free, ast.Name) else [d_.value for d_ in ld_.get(e_free.id, []) if d_.value is not None]
+            for fsrc in fsrcs:
+                for leaf in if_leaves(fsrc):
                     mm = pmatch(f"_free_sig_from_pattern_orbits({mv}, $fo, $hr)", leaf)
-                    if mm:
+                    if mm is None and isinstance(leaf, ast.Call) and isinstance(leaf.func, ast.Name) and len(leaf.args) == 1 and norm(leaf.args[0]) == mv:
+                        # a local closure chosen before the loop: look at what its definitions return
+                        for fdef in [n for n in ast.walk(fi.node) if isinstance(n, ast.FunctionDef) and n.name == leaf.func.id and len(n.args.args) == 1]:
+                            for r_ in [x for x in ast.walk(fdef) if isinstance(x, ast.Return) and x.value is not None]:
+                                mm = mm or pmatch(f"_free_sig_from_pattern_orbits({fdef.args.args[0].arg}, $fo, $hr)", r_.value)
+                    if mm and am:
                         b.update(mm)
+                        b.update(am)
                         okk = True
         if okk:
             d2 = local_defs(fi.node)
